@@ -16,7 +16,7 @@ pub mod wire;
 pub mod sim_reader;
 pub mod sim_writer;
 pub mod sim_pair;
-// pub mod sim_dds;
+pub mod sim_dds;
 // pub mod sim_disc;
 pub mod lease;
 pub mod qosx;
